@@ -30,7 +30,7 @@ type c20Case struct {
 }
 
 var c20Ops = []string{"read", "write", "ping", "closeread", "netconn-rw", "netconn-deadline", "abandon-reader", "abandon-writer", "wsjson-write", "wsjson-read", "write-big"}
-var c20Endings = []string{"close", "closenow", "peer-close", "violation", "read-limit", "ctx-expiry", "transport-eof", "transport-reset", "transport-cut-midframe"}
+var c20Endings = []string{"close", "closenow", "peer-close", "violation", "read-limit", "ctx-expiry", "transport-eof", "transport-reset", "transport-cut-midframe", "peer-flood"}
 
 var libCreated = regexp.MustCompile(`created by nhooyr\.io/websocket[./(]`)
 
@@ -211,6 +211,19 @@ func runC20Once(t fataler, c c20Case, iter int) string {
 				conn.Write(ctx, websocket.MessageBinary, make([]byte, 9000))
 			})
 		}
+	case "peer-flood":
+		// the peer keeps sending data frames, one a second, and never sends a Close frame
+		e.Go(func() {
+			for i := 0; ; i++ {
+				if p.send(ref.Frame{Fin: true, Opcode: ref.OpBinary, Payload: expand(ckPattern, uint64(i), 100)}) != nil {
+					return
+				}
+				if !e.sleep(time.Second) {
+					return
+				}
+			}
+		})
+		e.sleep(1500 * time.Millisecond)
 	case "transport-eof":
 		lc.End.CloseWrite(nil)
 		if !closeReadOn {
@@ -264,7 +277,7 @@ func runC20Once(t fataler, c c20Case, iter int) string {
 
 func TestC20(t *testing.T) {
 	rec := evid.For("C20")
-	rec.Rule = "rapid-generated histories of 0-15 operations {read, write, big write, ping, CloseRead, NetConn read/write, NetConn deadlines, abandoned reader, abandoned writer, wsjson read/write} on either role with or without compression, ended by a drawn cause {Close, CloseNow, peer Close, protocol violation, read-limit excess, context expiry, transport EOF, transport reset, transport cut mid-frame}, after which the user calls Close or CloseNow; each history is repeated 20-50 times in one process. After the final call returned and the bubble is quiescent, the all-goroutine dump must contain no goroutine created by nhooyr.io/websocket. Non-trivial: CloseRead active, or ended by an error/fault rather than a clean close. distinct = hash(mode, ops, ending, final)."
+	rec.Rule = "rapid-generated histories of 0-15 operations {read, write, big write, ping, CloseRead, NetConn read/write, NetConn deadlines, abandoned reader, abandoned writer, wsjson read/write} on either role with or without compression, ended by a drawn cause {peer sending data frames for ever, Close, CloseNow, peer Close, protocol violation, read-limit excess, context expiry, transport EOF, transport reset, transport cut mid-frame}, after which the user calls Close or CloseNow; each history is repeated 20-50 times in one process. After the final call returned and the bubble is quiescent, the all-goroutine dump must contain no goroutine created by nhooyr.io/websocket. Non-trivial: CloseRead active, or ended by an error/fault rather than a clean close. distinct = hash(mode, ops, ending, final)."
 	rapid.Check(t, func(rt *rapid.T) {
 		var c c20Case
 		c.Mode = rapid.SampledFrom(c16Modes).Draw(rt, "mode")
@@ -303,4 +316,84 @@ func TestC20(t *testing.T) {
 			rt.Fatalf("C20 %+v: %s", c, msg)
 		}
 	})
+}
+
+
+// TestC20Lag: a transport whose Close does not interrupt pending I/O at once (the
+// calls blocked in it fail 5 s later). Whatever the library does about the calls
+// that are still in flight, once Close / CloseNow has returned no goroutine it
+// started may be left. This runs on the real clock, outside a synctest bubble
+// (a goroutine waiting for a sync.Mutex while the lock's holder waits for the
+// fake clock would freeze the bubble): goroutines get 2 s to finish exiting, the
+// transport holds the calls for 5 s.
+func TestC20Lag(t *testing.T) {
+	rec := evid.For("C20")
+	type lagCase struct {
+		Client bool
+		Op     string // read | write | both
+		Final  string
+	}
+	var cases []lagCase
+	for _, client := range []bool{false, true} {
+		for _, op := range []string{"read", "write", "both"} {
+			for _, fin := range []string{"CloseNow", "Close"} {
+				cases = append(cases, lagCase{client, op, fin})
+			}
+		}
+	}
+	// (a replay runs the whole list again: the cases share one process-wide goroutine census)
+	// all connections are set up, then all are closed at the same time, then the
+	// process must be free of library goroutines
+	e := newEnv(t)
+	defer e.Teardown()
+	var conns []*libConn
+	for _, c := range cases {
+		lc, err := e.open(connSpec{Client: c.Client})
+		if err != nil {
+			t.Fatalf("handshake: %v", err)
+		}
+		lc.Lib.SetCloseLag(5 * time.Second)
+		lc.Peer.start(e)
+		if c.Op == "read" || c.Op == "both" {
+			e.Go(func() { lc.C.Read(context.Background()) })
+		}
+		if c.Op == "write" || c.Op == "both" {
+			lc.End.SetInBudget(0)
+			e.Go(func() { lc.C.Write(context.Background(), websocket.MessageBinary, make([]byte, 9000)) })
+		}
+		conns = append(conns, lc)
+	}
+	time.Sleep(300 * time.Millisecond) // the calls are in the transport now
+	var finals []<-chan struct{}
+	for i, c := range cases {
+		lc, c := conns[i], c
+		finals = append(finals, e.Call(func() {
+			if c.Final == "Close" {
+				lc.C.Close(websocket.StatusNormalClosure, "")
+			} else {
+				lc.C.CloseNow()
+			}
+		}))
+	}
+	for i, d := range finals {
+		select {
+		case <-d:
+		case <-time.After(60 * time.Second):
+			failCase(t, "C20", cases[i], "%s did not return within 60 s (real time) on a transport that holds pending I/O for 5 s after Close", cases[i].Final)
+		}
+	}
+	deadline := time.Now().Add(2 * time.Second)
+	for {
+		gs := libGoroutines()
+		if len(gs) == 0 {
+			break
+		}
+		if time.Now().After(deadline) {
+			failCase(t, "C20", map[string]any{"lag": true, "cases": cases}, "%d goroutine(s) started by the library still exist 2 s after every Close / CloseNow had returned (transport holds pending I/O for 5 s after Close):\n%s", len(gs), gs[0])
+		}
+		time.Sleep(20 * time.Millisecond)
+	}
+	for _, c := range cases {
+		rec.Case(true, fmt.Sprintf("lag|%v|%s|%s", c.Client, c.Op, c.Final), "transport-close-does-not-interrupt-io")
+	}
 }
